@@ -142,6 +142,9 @@ func setup(c Case) (*world, error) {
 			return nil, err
 		}
 		sw.Server.MaxPackfileSize = uint64([]int{0, 1, 4000}[c.Rows%3])
+		// half of the cases: the server offers its tables (TableHaves) before the first packfile
+		// and leaves out those the client acknowledges
+		sw.Server.TableNegotiation = c.Edit%2 == 1
 		w.sync = sw
 		w.repo = sw.Repo
 		repo = sw.Repo
